@@ -144,6 +144,65 @@ class Recorder:
         return split_canaries(res, [c['id'] for c in canaries])
 
 
+def derived_after_use(obj):
+    """[(how, object)] reached from `obj` through the public copy / substitution API.  Called AFTER `obj` has been
+    handed to the function under test, so that anything that call left behind on `obj` (or on its nodes) and that a
+    copy inherits shows up when the same function is applied to the copy (the validator judges every (input, output)
+    pair on its own, so a derived input needs no special treatment)."""
+    from hpl import rewrite as R
+    from hpl.ast.expressions import HplBinaryOperator, HplExpression, HplQuantifier, HplVarReference
+    out = []
+
+    def attempt(how, thunk):
+        try:
+            r = thunk()
+        except Exception:  # noqa  (an inapplicable derivation is not the subject here)
+            return
+        if r is not obj:
+            out.append((how, r))
+    try:
+        refs = sorted(obj.external_references())
+    except Exception:  # noqa
+        refs = []
+    try:
+        has_this = bool(obj.contains_self_reference())
+    except Exception:  # noqa
+        has_this = False
+    if has_this:
+        attempt('replace_this_with_var(M)', lambda: R.replace_this_with_var(obj, 'M'))
+    for a in refs[:2]:
+        attempt('replace_var_with_this(%s)' % a, lambda a=a: R.replace_var_with_this(obj, a))
+        attempt('replace_var_reference(%s:=@Zq)' % a, lambda a=a: obj.replace_var_reference(a, HplVarReference('@Zq')))
+    if not has_this and refs:
+        attempt('replace_var_reference(%s:=@%s)' % (refs[0], refs[-1] if len(refs) > 1 else 'Zr'),
+                lambda: obj.replace_var_reference(refs[0], HplVarReference('@' + (refs[-1] if len(refs) > 1 else 'Zr'))))
+    e = obj if isinstance(obj, HplExpression) else None
+    if isinstance(e, HplBinaryOperator) and e.operator.token in ('and', 'or', 'implies', 'iff', '+', '*'):
+        attempt('but(operand1=operand2)', lambda: e.but(operand1=e.operand2))
+        attempt('but(operand2=operand1)', lambda: e.but(operand2=e.operand1))
+    if isinstance(e, HplQuantifier):
+        attempt('but(quantifier flipped)', lambda: e.but(quantifier='exists' if e.is_universal else 'forall'))
+    return out
+
+
+def derived_pass(used, call, rnd, cap, prepare=None):
+    """used: [(text, obj)] already handed to the function under test; call(text, obj) records one more call.
+    Applies the function to copies derived from a sample of the used objects, then once more to the originals."""
+    sample = used if len(used) <= cap else rnd.sample(used, cap)
+    if prepare:
+        for text, obj in sample:
+            prepare(text, obj)
+    n = 0
+    for text, obj in sample:
+        ds = derived_after_use(obj)
+        for how, o2 in ds:
+            call('%s   [copy made by %s after the original was used]' % (text, how), o2)
+            n += 1
+        if ds:
+            call('%s   [the original, again, after its copies were used]' % text, obj)
+    return n
+
+
 def parse_inputs(texts, entries=('expression',), boolean_only=False):
     """[(fam, text, entry, obj)] for accepted texts (boolean_only: expressions must be exactly BOOL)."""
     from hpl.types import DataType
